@@ -257,7 +257,13 @@ fn jump_source(t: &mut crate::pgen::Tape) -> (String, Vec<HostOp>) {
     // function-free nested state; `land` prints constants and returns with ->-> (an error at
     // top level, exactly as in a fresh story)
     let mut s = String::from("VAR n = 0\n-> start\n=== start ===\nBegin.\n");
-    let mut ops = vec![HostOp::ContinueMax];
+    // the history either runs to the first stop or stops after 1-3 single lines (which may
+    // leave the story inside a thread or a tunnel that has printed but not finished)
+    let mut ops = if t.chance(1, 2) {
+        vec![HostOp::ContinueMax]
+    } else {
+        (0..1 + t.pick(3)).map(|_| HostOp::Continue).collect()
+    };
     match t.pick(3) {
         0 => {
             s.push_str("-> tun ->\nBack.\n-> END\n");
@@ -270,7 +276,7 @@ fn jump_source(t: &mut crate::pgen::Tape) -> (String, Vec<HostOp>) {
         }
     }
     s.push_str("=== tun ===\nIn tunnel.\n~ n = n + 1\n* [deeper]\n    -> tun2 ->\n    ->->\n* [out]\n    ->->\n=== tun2 ===\nDeeper.\n* [stay]\n    Stay.\n    ->->\n");
-    s.push_str("=== thr ===\nThread text.\n* [thread choice]\n    From thread.\n    -> END\n");
+    s.push_str("=== thr ===\nThread text.\nMore thread text.\n* [thread choice]\n    From thread.\n    -> END\n");
     let ending = ["->->", "-> END", "-> DONE"][t.pick(3)];
     s.push_str(&format!("=== land ===\nLanded.\n* [go on]\n    On we go.\n    {ending}\n* [stop]\n    {ending}\n"));
     let n = t.pick(4);
